@@ -19,9 +19,19 @@ pub enum Cb {
     PartialEq = 4,
     Debug = 5,
     System = 6,
+    /// not a callback of its own: the k-th `Serialize` call *returns an error* instead of panicking
+    SerializeErr = 7,
+    /// the k-th `Deserialize` call returns an error
+    DeserializeErr = 8,
 }
-pub const NCB: usize = 7;
-pub const CB_ALL: [Cb; NCB] = [Cb::Clone, Cb::Drop, Cb::Serialize, Cb::Deserialize, Cb::PartialEq, Cb::Debug, Cb::System];
+pub const NCB: usize = 9;
+pub const CB_ALL: [Cb; NCB] = [Cb::Clone, Cb::Drop, Cb::Serialize, Cb::Deserialize, Cb::PartialEq, Cb::Debug, Cb::System, Cb::SerializeErr, Cb::DeserializeErr];
+impl Cb {
+    /// the armed fault is an ordinary error return, not a panic
+    pub fn is_error_return(self) -> bool {
+        matches!(self, Cb::SerializeErr | Cb::DeserializeErr)
+    }
+}
 
 #[derive(Clone, Debug, PartialEq, Eq)]
 pub enum TokErr {
@@ -137,6 +147,33 @@ pub fn tick(cb: Cb) {
     if let Some(k) = fire {
         std::panic::panic_any(InjectedPanic(cb, k));
     }
+}
+
+/// `tick` for a callback that can also fail by returning an error: counts the call under both kinds, panics when the
+/// panic kind is armed for this call, and answers `true` when the error kind is.
+pub fn tick_fallible(cb: Cb, err_cb: Cb) -> bool {
+    let fire = with_ledger(|l| {
+        let k = l.calls[cb as usize];
+        l.calls[cb as usize] += 1;
+        l.calls[err_cb as usize] += 1;
+        if l.armed == Some((cb, k)) {
+            l.armed = None;
+            l.fired = true;
+            1
+        } else if l.armed == Some((err_cb, k)) {
+            l.armed = None;
+            l.fired = true;
+            2
+        } else {
+            0
+        }
+    })
+    .unwrap_or(0);
+    if fire == 1 {
+        let k = with_ledger(|l| l.calls[cb as usize] - 1).unwrap_or(0);
+        std::panic::panic_any(InjectedPanic(cb, k));
+    }
+    fire == 2
 }
 
 fn new_serial(tag: u32) -> u64 {
@@ -406,13 +443,17 @@ macro_rules! common_impls {
         }
         impl<const K: u32> Serialize for $ty<K> {
             fn serialize<S: Serializer>(&self, s: S) -> Result<S::Ok, S::Error> {
-                tick(Cb::Serialize);
+                if tick_fallible(Cb::Serialize, Cb::SerializeErr) {
+                    return Err(serde::ser::Error::custom("injected serialization error"));
+                }
                 s.serialize_u32(self.read().0)
             }
         }
         impl<'de, const K: u32> Deserialize<'de> for $ty<K> {
             fn deserialize<D: Deserializer<'de>>(d: D) -> Result<Self, D::Error> {
-                tick(Cb::Deserialize);
+                if tick_fallible(Cb::Deserialize, Cb::DeserializeErr) {
+                    return Err(serde::de::Error::custom("injected deserialization error"));
+                }
                 let v = u32::deserialize(d)?;
                 Ok(Self::make(v))
             }
@@ -437,13 +478,17 @@ impl<const K: u32> std::fmt::Debug for Zst<K> {
 }
 impl<const K: u32> Serialize for Zst<K> {
     fn serialize<S: Serializer>(&self, s: S) -> Result<S::Ok, S::Error> {
-        tick(Cb::Serialize);
+        if tick_fallible(Cb::Serialize, Cb::SerializeErr) {
+            return Err(serde::ser::Error::custom("injected serialization error"));
+        }
         s.serialize_unit()
     }
 }
 impl<'de, const K: u32> Deserialize<'de> for Zst<K> {
     fn deserialize<D: Deserializer<'de>>(d: D) -> Result<Self, D::Error> {
-        tick(Cb::Deserialize);
+        if tick_fallible(Cb::Deserialize, Cb::DeserializeErr) {
+            return Err(serde::de::Error::custom("injected deserialization error"));
+        }
         <()>::deserialize(d)?;
         Ok(Self::make(0))
     }
